@@ -21,6 +21,13 @@ Fixpoint py_for {A S : Type} (l : list A) (st : S) (body : A -> S -> res S) : re
   | x :: r => match body x st with Ok st' => py_for r st' body | _ => Raise end
   end.
 
+(* l[i] on a list : IndexError outside -len .. len-1 *)
+Definition py_nth {A : Type} (l : list A) (i : Z) : option A :=
+  let n := Z.of_nat (length l) in
+  if (0 <=? i) && (i <? n) then nth_error l (Z.to_nat i)
+  else if (- n <=? i) && (i <? 0) then nth_error l (Z.to_nat (n + i))
+  else None.
+
 (* bytes([x]) : ValueError outside range(256) *)
 Definition py_bytes1 (x : Z) : option bytes := if (0 <=? x) && (x <? 256) then Some [x] else None.
 
